@@ -339,6 +339,26 @@ func runC17(c *Ctx) {
 			}
 		}
 	}
+	// a custom function inside its own argument: each call sees its own input and arguments
+	withSuffix := func(in system.Collection, suffix system.String) (system.Collection, error) {
+		if len(in) != 1 {
+			return nil, fmt.Errorf("want one input item, got %d", len(in))
+		}
+		s, _ := in[0].(system.String)
+		return system.Collection{system.String(string(s) + "-" + string(suffix))}, nil
+	}
+	for _, tc := range []struct{ src, want string }{
+		{"'alice'.withSuffix('bob'.withSuffix('x'))", "alice-bob-x"},
+		{"'a'.withSuffix('b'.withSuffix('c'.withSuffix('d')))", "a-b-c-d"},
+		{"'a'.withSuffix('b').withSuffix('c'.withSuffix('d'))", "a-b-c-d"},
+		{"('a' | 'b').select($this.withSuffix($this.withSuffix('z'))).first()", ""},
+	} {
+		o := ev(tc.src, withSuffix, "withSuffix")
+		c.Observe("custom nested "+tc.src, true)
+		if tc.want != "" {
+			c.Law(o.Err == nil && len(o.Coll) == 1 && o.Coll[0] == system.String(tc.want), "C17/custom-nested", "a custom function called inside its own argument receives its own input and arguments", tc.src, canonOutcome(o, nil)+" want "+tc.want)
+		}
+	}
 	o = ev("Patient.failing()", failing, "failing")
 	c.Law(o.Err != nil && strings.Contains(o.Err.Error(), "boom"), "C17/custom-error", "the error a custom function returns is passed through", "Patient.failing()", fmt.Sprint(o.Err))
 	o = ev("failing()", failing, "failing")
